@@ -126,7 +126,7 @@ def _check_container(obj, what, nrows, labels=None, mean_level=False):
     if list(obj.slices.keys()) != list(obj.terms.keys()):
         return f"{what}: slices {list(obj.slices)} do not follow the terms {list(obj.terms)}"
     for name, sl in obj.slices.items():
-        if sl.start != start or sl.stop <= sl.start or sl.step not in (None, 1):
+        if sl.start != start or sl.stop < sl.start or sl.step not in (None, 1):  # a term may have no column
             return f"{what}: slice of {name} is {sl}, expected to start at {start}"
         if not np.array_equal(obj[name], M[:, sl], equal_nan=True):
             return f"{what}: obj[{name!r}] differs from design_matrix[:, slice]"
